@@ -543,6 +543,12 @@ func (w *upWorld) react(native func(ktesting.Action) (bool, runtime.Object, erro
 			}
 			return true, nil, upErr(hit.kind)
 		}
+		if ca, ok := action.(ktesting.CreateAction); ok && action.GetVerb() == "create" {
+			// the storage layer refuses a create that carries a resourceVersion (the fake tracker would take it)
+			if m, ok := ca.GetObject().(metav1.Object); ok && m.GetResourceVersion() != "" {
+				return true, nil, apierrors.NewBadRequest("resourceVersion should not be set on objects to be created")
+			}
+		}
 		return native(action)
 	}
 }
